@@ -43,3 +43,11 @@ def dh_mixed_formats_exit0(line, verdict):
 def ambiguous_rename_history(line, verdict):
     """F17: false alarm after create -dr when two recorded paths share their content and one is gone"""
     return line["op"]["op"] in ("create", "verify", "diff") and line["exit"] == 10 and verdict.get("A_ambig") is True
+
+
+@sig("author_name_dash")
+def author_name_dash(line, verdict):
+    """F18: only the authors differ, and one of the written author names is exactly '-'"""
+    names = line.get("author_names") or []
+    diffs = (line.get("tool_bad") or []) + (line.get("indep_bad") or [])
+    return "-" in names and bool(diffs) and all(d.startswith("authors:") for d in diffs)
